@@ -1,6 +1,8 @@
 (** * C02 -- Optimisation never changes observable behaviour. *)
 From Coq Require Import String ZArith List Bool Arith.
-From NSL Require Import Model.PyNum Model.IR Model.VM Model.WfIR Model.Opt Proofs.WfIRProofs Proofs.OptProofs Proofs.ForwardProofs Harness.FwdLib.
+From NSL Require Import Base.Types Base.Syntax Model.PyNum Model.IR Model.VM Model.WfIR Model.Elab Model.Lower Model.Opt Spec.RefSem Proofs.WfIRProofs Proofs.OptProofs Proofs.ForwardProofs Harness.FwdLib
+     Proofs.OpsAgree Proofs.LowerExprProofs Proofs.ElabExprProofs Proofs.ReturnExprProofs Proofs.CallAgreeProofs Proofs.LowerStmtProofs Proofs.ElabStmtProofs
+     Proofs.StraightLineProofs Proofs.LowerWfProofs Proofs.StraightOptProofs.
 From NSLDyn Require Gen_Shapes.
 Import ListNotations.
 
@@ -73,6 +75,34 @@ Theorem C02_forwarding_preserves_single_block_functions_partial : forall (P : pr
   forall fuel fr vs w vs1, run fuel P F 0 fr vs = Done w vs1 -> run fuel P (opt_load_after_store F) 0 fr vs = Done w vs1.
 Proof. exact fwd_fragment_sound. Qed.
 
+(** PARTIAL (source to optimised IR, straight-line functions).  For every source function whose body is declarations and
+    assignments of int / float variables followed by a return (the fragment of C01_straight_line_functions_partial, same
+    hypotheses): at every call with numeric arguments and globals, whenever the reference semantics runs the body to a
+    result v, BOTH the function F the lowering model produces AND the function [opt_load_after_store F] return exactly v
+    and end in the same VM state, for every sufficient fuel.  No side condition on F: the lowering of a straight-line
+    function always yields one block of distinct, increasing references whose operands are pooled constants or earlier
+    results, with every access in the scope its name determines ([straight_lowered_forwarding_hyps]).  (When no cast of a
+    constant occurs, [opt_load_after_store F] is the whole optimising pipeline applied to F.) *)
+Theorem C02_straight_line_source_to_optimised_partial :
+  forall (M : module) (fn : func) (l : list stmt) (e : expr) (tf : tfunc) (F : ifunc),
+    f_body fn = l ++ [SRet (Some e)] -> forallb ssimple l = true -> spure e = true ->
+    elab_func (genv_of M) (genvl M) fn = EOk tf -> lower_func (m_structs M) (glnames M) tf = LOk F ->
+    forall tl te, tf_body tf = tl ++ [TRet (Some te)] -> length tl = length l ->
+    forallb stok tl = true -> tok te = true ->
+    lits_exact (flat_map tflits (body_exprs tl ++ [te])) -> (forall q, In q (flat_map tflits (body_exprs tl ++ [te])) -> PrimFloat.eqb q q = true) ->
+    Forall (fresh_decl (glnames M) (argnames fn)) l ->
+    forall (P : program) (ws : list rval) (g : RefSem.frame) (vs : vmstate),
+      Forall2 (fun p w => has_ty w (fst p)) (f_args fn) ws ->
+      (forall x, In x (map snd (f_args fn)) -> ~ In x (glnames M)) ->
+      (forall x p, find (fun q => String.eqb (fst q) x) (genvl M) = Some p ->
+         num_ty (snd p) /\ exists w, find (fun q => String.eqb (fst q) x) g = Some (fst p, SV w) /\ has_ty w (snd p) /\ slookup x (globals vs) = Some (v_of w)) ->
+      forall fuel fl st', exec_list M fuel (f_body fn) (call_state fn ws g) = ROk (fl, st') ->
+        exists v vs', fl = OReturn (SV v) /\
+          exists n, forall fuel', n <= fuel' ->
+            run fuel' P F 0 (call_frame ws (init_regs F)) vs = Done (v_of v) vs' /\
+            run fuel' P (opt_load_after_store F) 0 (call_frame ws (init_regs F)) vs = Done (v_of v) vs'.
+Proof. exact straight_line_optimised_simulation. Qed.
+
 (** non-vacuity: the chain example above is inside the fragment, and the pass removes both forwarded loads *)
 Example C02_fragment_example :
   let F := {| fn_name := "f"%string; fn_args := [("a"%string, ITInt false)]; fn_ret := ITInt false; fn_consts := [];
@@ -88,5 +118,6 @@ Example C02_fragment_example :
 Proof. vm_compute. repeat split; reflexivity. Qed.
 
 Eval compute in "ASSUMPTIONS C02_forwarding_preserves_single_block_functions_partial"%string. Print Assumptions C02_forwarding_preserves_single_block_functions_partial.
+Eval compute in "ASSUMPTIONS C02_straight_line_source_to_optimised_partial"%string. Print Assumptions C02_straight_line_source_to_optimised_partial.
 Eval compute in "ASSUMPTIONS C02_optimised_wellformed_never_undefined_partial"%string. Print Assumptions C02_optimised_wellformed_never_undefined_partial.
 Eval compute in "END"%string.
